@@ -158,7 +158,7 @@ Lemma putc_poll K sc d : forall t m a0 r1 r2 r3 r4 r5 r6 r7 P c ssp fno frs ins 
   exists m' ins' obs',
     run sc t (2 * d + 2) (mk K m [a0; r1; r2; r3; r4; r5; r6; r7] 586 (psr_set_cc P c) ssp fno frs ins pf obs mcr q buf) =
     (mk K m' [new_init 32768; r1; r2; r3; r4; r5; r6; r7] 588 (psr_set_cc P 4) ssp fno frs ins' false obs' mcr q buf, OOk)
-    /\ same_low m m'.
+    /\ same_low m m' /\ mget m' KBDR = mget m KBDR.
 Proof.
   induction d as [|d IH]; intros t m a0 r1 r2 r3 r4 r5 r6 r7 P c ssp fno frs ins pf obs mcr q buf Hos HP Hl Hf.
   - cbn [Nat.mul Nat.add] in *. rewrite Nat.add_0_r in Hf. unfold ds_locked_at in Hf.
@@ -168,8 +168,9 @@ Proof.
     rewrite run_S.
     newmem m1 Hos1 Hos.
     erewrite step_BR; [ | rng | acc | osw Hos1 | dec ].
-    norm. eexists _, _, _. split; [reflexivity|].
-    subst m1. apply same_low_mset_io; [rng | apply same_low_refl].
+    norm. eexists _, _, _. split; [reflexivity|]. subst m1. split.
+    + apply same_low_mset_io; [rng | apply same_low_refl].
+    + apply mget_mset_other; rng.
   - assert (Hl0 : ds_locked_at sc t = true) by (specialize (Hl O ltac:(lia)); rewrite Nat.mul_0_r, Nat.add_0_r in Hl; exact Hl).
     unfold ds_locked_at in Hl0.
     replace (2 * S d + 2)%nat with (2 + (2 * d + 2))%nat by lia. rewrite run_add.
@@ -179,11 +180,12 @@ Proof.
     erewrite step_BR; [ | rng | acc | osw Hos1 | dec ].
     norm.
     destruct (IH (t + 2)%nat m1 (new_init 0) r1 r2 r3 r4 r5 r6 r7 P 2 ssp fno frs (next_ins (next_ins ins)) false
-                 [(587, OBS_READ)] mcr q buf Hos1 HP) as (m' & ins' & obs' & Hrun & Hsame).
+                 [(587, OBS_READ)] mcr q buf Hos1 HP) as (m' & ins' & obs' & Hrun & Hsame & Hk).
     { intros i Hi. specialize (Hl (S i) ltac:(lia)). replace (t + 2 + 2 * i)%nat with (t + 2 * S i)%nat by lia. exact Hl. }
     { replace (t + 2 + 2 * d)%nat with (t + 2 * S d)%nat by lia. exact Hf. }
-    exists m', ins', obs'. split; [exact Hrun|].
-    intros a Ha. rewrite Hsame by exact Ha. subst m1. apply mget_mset_other; rng.
+    exists m', ins', obs'. split; [exact Hrun|]. split.
+    + intros a Ha. rewrite Hsame by exact Ha. subst m1. apply mget_mset_other; rng.
+    + rewrite Hk. subst m1. apply mget_mset_other; rng.
 Qed.
 
 Ltac mg := repeat first [rewrite mget_mset_same | rewrite mget_mset_other by rng].
@@ -202,7 +204,7 @@ Lemma putc_call K sc t d (lockw : bool) m r0 r1 r2 r3 r4 r5 r6 r7 pc psr ssp fno
     run sc t (2 * d + 9) (mk K m [r0; r1; r2; r3; r4; r5; r6; r7] pc psr ssp fno frs ins pf obs mcr q buf) =
     (mk K m' [r0; r1; r2; r3; r4; r5; r6; r7] (wrap16 (pc + 1)) psr ssp fno frs ins' false obs' mcr q
         (if lockw then buf else buf ++ [w_data r0 mod 256]), OOk)
-    /\ mem_eq_outside (sp - 3) sp m m'.
+    /\ mem_eq_outside (sp - 3) sp m m' /\ mget m' KBDR = mget m KBDR.
 Proof.
   intros Hsp Hstk Hos Hpc Hacc Hw Hfno Hl Hf Hlw.
   replace (2 * d + 9)%nat with (3 + ((2 * d + 2) + 4))%nat by lia.
@@ -226,7 +228,7 @@ Proof.
   cbn [run]. rewrite run_add.
   destruct (putc_poll K sc d (t + 3)%nat m2 r0 r1 r2 r3 r4 r5 (new_init (sp - 3)) r7 P (cc_of (sp - 3)) ssp1 (fno + 1) frs1
               (next_ins (next_ins (next_ins ins))) false (obs_write [(585, OBS_READ)] m1 (sp - 3) r0) mcr q buf Hos2 HP Hl Hf)
-    as (m3 & ins3 & obs3 & Hrun3 & Hsame3).
+    as (m3 & ins3 & obs3 & Hrun3 & Hsame3 & Hk3).
   rewrite Hrun3. clear Hrun3.
   assert (Hos3 : os_mem m3) by (apply (same_low_os m2); assumption).
   (* x024C LDR R0,R6,#0 *)
@@ -246,6 +248,7 @@ Proof.
   assert (Hm1b : mget m1 (sp - 1) = new_init psr) by (subst m1; mg; reflexivity).
   assert (Hmeo : mem_eq_outside (sp - 3) sp m m3).
   { intros a Ha Hn. rewrite Hsame3 by exact Ha. subst m1. mg. reflexivity. }
+  assert (Hkk : mget m3 KBDR = mget m KBDR) by (rewrite Hk3; subst m1; mg; reflexivity).
   destruct lockw; norm.
   - (* the write was dropped *)
     rewrite run_S. erewrite step_RTI; [ | rng | acc | osw Hos3 | dec | priv | | ]; cbn [w_data new_init]; [ | rng | rewrite wrap16_small by rng; rng].
@@ -255,7 +258,7 @@ Proof.
     rewrite Hfr. replace (Z.max 0 (fno + 1 - 1)) with fno by lia.
     cbn [run]. subst ssp1.
     destruct (psr_privileged psr); [rewrite <- Hsp | rewrite <- Hsp];
-      (eexists _, _, _; split; [reflexivity | exact Hmeo]).
+      (eexists _, _, _; split; [reflexivity | split; [exact Hmeo | exact Hkk]]).
   - rewrite run_S. newmem m4 Hos4 Hos3.
     erewrite step_RTI; [ | rng | acc | osw Hos4 | dec | priv | | ]; cbn [w_data new_init]; [ | rng | rewrite wrap16_small by rng; rng].
     replace (wrap16 (sp - 2 + 1)) with (sp - 1) by (unfold wrap16; rng).
@@ -265,7 +268,7 @@ Proof.
     rewrite Hfr. replace (Z.max 0 (fno + 1 - 1)) with fno by lia.
     cbn [run]. subst ssp1.
     destruct (psr_privileged psr); [rewrite <- Hsp | rewrite <- Hsp];
-      (eexists _, _, _; split; [reflexivity | apply meo_mset_io; [rng | exact Hmeo]]).
+      (eexists _, _, _; split; [reflexivity | split; [apply meo_mset_io; [rng | exact Hmeo] | rewrite mget_mset_other by rng; exact Hkk]]).
 Qed.
 
 Definition kb_locked_at (sc : sched) (t : nat) : bool := e_kb_locked (sc t).
@@ -486,7 +489,7 @@ Proof.
     (* x0257 PUTC *)
     destruct (putc_call K sc (t + 2)%nat 0 false m (mget m (w_data p)) p r2 r3 r4 r5 (new_init x) r7 599 (psr_set_cc P (cc_of ch)) ssp fno frs
                 (next_ins (next_ins ins)) false [(598, OBS_READ)] mcr q buf x)
-      as (m1 & ins1 & obs1 & Hrun1 & Hmeo1).
+      as (m1 & ins1 & obs1 & Hrun1 & Hmeo1 & _).
     { replace (psr_privileged (psr_set_cc P (cc_of ch))) with true by (symmetry; priv). reflexivity. }
     { exact Hx. } { exact Hos. } { rng. } { acc. } { osw Hos. } { exact Hfno. }
     { intros i Hi. lia. }
@@ -675,7 +678,7 @@ Proof.
   (* x0262 PUTC *)
   destruct (putc_call K sc (t + 2 + 234 + 5)%nat 0 false m3 (new_init ch) r1 r2 r3 r4 r5 (new_init (sp - 2)) r7 610 (psr_set_cc P 2) ssp1 (fno + 1) frs1
               ins3 false obs3 mcr q (buf ++ low8 in_prompt) (sp - 2))
-    as (m4 & ins4 & obs4 & Hrun4 & Hmeo4).
+    as (m4 & ins4 & obs4 & Hrun4 & Hmeo4 & _).
   { replace (psr_privileged (psr_set_cc P 2)) with true by (symmetry; priv). reflexivity. }
   { rng. } { exact Hos3. } { rng. } { acc. } { osw Hos3. } { lia. }
   { intros i Hi. lia. }
